@@ -285,6 +285,8 @@ def one_seeded(sd: str, tier: str) -> Dict[str, Any]:
     meta = json.load(open(os.path.join(sd, "meta.json")))
     root = scratch_copy()
     res: Dict[str, Any] = {"mutant": "seeded/" + os.path.basename(sd), "desc": meta.get("summary", ""), "results": {}}
+    if meta.get("not_claimed"):
+        res["not_claimed"] = meta["not_claimed"]
     try:
         r = subprocess.run(["patch", "-p1", "-s", "-d", root, "-i", os.path.join(sd, "patch.diff")], capture_output=True, text=True)
         if r.returncode != 0:
@@ -332,7 +334,11 @@ def main() -> int:
             continue
         for pid, x in r["results"].items():
             flag = "CAUGHT" if x["caught"] else "MISSED"
-            if not x["caught"]:
+            if not x["caught"] and r.get("not_claimed"):
+                # a seeded change judged to be outside every property (recorded with its reason in meta.json): still run,
+                # reported, never counted as caught
+                flag = "NOT-CLAIMED"
+            elif not x["caught"]:
                 missed += 1
             print(f"{flag} {pid} {r['mutant']} rc={x['rc']} {x['wall']}s {x['kinds'][:1]} {x['tail'][-200:] if not x['caught'] else ''}")
     with open(a.out, "w") as f:
